@@ -136,6 +136,10 @@ class Gen:
                 o["req"] = ",".join(t.opts[j]["name"] for j in rng.sample(listable, min(len(listable), rng.choice([1, 1, 2]))))
             if listable and rng.random() < 0.25:
                 o["inc"] = ",".join(t.opts[j]["name"] for j in rng.sample(listable, min(len(listable), rng.choice([1, 1, 2, 3]))))
+        for o in t.opts:
+            for fld in ("tog", "req", "inc"):
+                if o[fld] is None and rng.random() < 0.03:
+                    o[fld] = ""                     # an empty list string is a legal way to say "no list"
         self.stats["tables"] += 1
         self.stats["opts"] += len(t.opts)
         for o in t.opts:
